@@ -1,6 +1,9 @@
 package frost
 
 import (
+	"errors"
+	"fmt"
+
 	"github.com/taurusgroup/multi-party-sig/internal/round"
 	"github.com/taurusgroup/multi-party-sig/pkg/math/curve"
 	"github.com/taurusgroup/multi-party-sig/pkg/party"
@@ -59,6 +62,12 @@ func KeygenTaproot(selfID party.ID, participants []party.ID, threshold int) prot
 
 // Refresh
 func Refresh(config *Config, participants []party.ID) protocol.StartFunc {
+	if config == nil || config.PrivateShare == nil || config.PublicKey == nil || config.VerificationShares == nil {
+		return startError(errors.New("frost.Refresh: config is nil or incomplete"))
+	}
+	if err := sameParties(participants, len(config.VerificationShares.Points), func(id party.ID) bool { return config.VerificationShares.Points[id] != nil }); err != nil {
+		return startError(fmt.Errorf("frost.Refresh: %w", err))
+	}
 	return keygen.StartKeygenCommon(false, config.Curve(), participants, config.Threshold, config.ID, config.PrivateShare, config.PublicKey, config.VerificationShares.Points)
 }
 
@@ -68,6 +77,12 @@ func Refresh(config *Config, participants []party.ID) protocol.StartFunc {
 //
 // See: https://github.com/bitcoin/bips/blob/master/bip-0340.mediawiki#specification
 func RefreshTaproot(config *TaprootConfig, participants []party.ID) protocol.StartFunc {
+	if config == nil || config.PrivateShare == nil || config.VerificationShares == nil {
+		return startError(errors.New("frost.RefreshTaproot: config is nil or incomplete"))
+	}
+	if err := sameParties(participants, len(config.VerificationShares), func(id party.ID) bool { return config.VerificationShares[id] != nil }); err != nil {
+		return startError(fmt.Errorf("frost.RefreshTaproot: %w", err))
+	}
 	publicKey, err := curve.Secp256k1{}.LiftX(config.PublicKey)
 	if err != nil {
 		return func([]byte) (round.Session, error) {
@@ -111,6 +126,9 @@ func Sign(config *Config, signers []party.ID, messageHash []byte) protocol.Start
 //
 // See: https://github.com/bitcoin/bips/blob/master/bip-0340.mediawiki
 func SignTaproot(config *TaprootConfig, signers []party.ID, messageHash []byte) protocol.StartFunc {
+	if config == nil || config.PrivateShare == nil || config.VerificationShares == nil {
+		return startError(errors.New("frost.SignTaproot: config is nil or incomplete"))
+	}
 	publicKey, err := curve.Secp256k1{}.LiftX(config.PublicKey)
 	if err != nil {
 		return func([]byte) (round.Session, error) {
@@ -129,4 +147,24 @@ func SignTaproot(config *TaprootConfig, signers []party.ID, messageHash []byte) 
 		VerificationShares: party.NewPointMap(genericVerificationShares),
 	}
 	return sign.StartSignCommon(true, normalResult, signers, messageHash)
+}
+
+// startError is a StartFunc that reports err when the handler is constructed.
+func startError(err error) protocol.StartFunc {
+	return func([]byte) (round.Session, error) {
+		return nil, err
+	}
+}
+
+// sameParties checks that a refresh runs among exactly the holders of the key being refreshed.
+func sameParties(participants []party.ID, holders int, isHolder func(party.ID) bool) error {
+	if len(participants) != holders {
+		return fmt.Errorf("%d participants for a key shared among %d parties", len(participants), holders)
+	}
+	for _, id := range participants {
+		if !isHolder(id) {
+			return fmt.Errorf("participant %s holds no share of this key", id)
+		}
+	}
+	return nil
 }
